@@ -145,7 +145,8 @@ def main(tier, replay=None):
         {'round': lambda: O.round(i['f'], F(i['x']), i['d']), 'adj': lambda: O.adj(i['f'], F(i['x']), F(i['s'])),
          'int': lambda: O.int1(i['f'], F(i['x'])), 'qm': lambda: O.qm(F(i['n']), F(i['d'])), 'fact': lambda: O.fact(i['n']),
          'hex': lambda: O.hex(N(i)), 'base': lambda: O.base(N(i), i['r']), 'roman': lambda: O.roman(i['n'], i['form']),
-         'cplx': lambda: O.cplx(i['a'], i['b'])}[k]()
+         'cplx': lambda: O.cplx(i['a'], i['b']),
+         'factfrac': lambda: O.add('factfrac', {'x': i['x']}, '{FACT(vx),FACTDOUBLE(vx)}', vx=pynum(F(i['x'])))}[k]()
         pr = c.get('prior')
         O.flush(None, [(pr['formula'], pr['vars'])] if pr else None)
         O.obs[0]['id'] = 1
@@ -184,6 +185,8 @@ def main(tier, replay=None):
         O.adj('FLOOR', x, 1)
         O.int1('INT', x)
         O.qm(x, 1)
+    for x in (Fraction(-1, 2), Fraction(-1, 4), Fraction(-9, 10), Fraction(-3, 2), Fraction(1, 2), Fraction(5, 2)):
+        O.add('factfrac', {'x': q(x)}, '{FACT(vx),FACTDOUBLE(vx)}', vx=pynum(x))
     for n in list(range(-3, 23)) + [25, 30, 31, 33, 35, 37, 40, 41, 45, 51, 60, 99, 100, 101]:
         O.fact(n)
     edge = [0, 1, -1, 15, 16, 255, 256, 2 ** 31 - 1, 2 ** 31, 2 ** 32, 2 ** 39 - 1, 2 ** 39, 2 ** 39 + 1, -2 ** 39, -2 ** 39 - 1,
